@@ -64,6 +64,8 @@ type vfWorldCfg struct {
 	LongKeys bool `json:"long_keys,omitempty"`
 	// what the provider advertises as code_challenge_methods_supported (nil: nothing)
 	ChallengeMethods []string `json:"challenge_methods,omitempty"`
+	// the foreign deployment uses the key the plugin falls back to when none is configured (it is in the source: public)
+	ForeignDefaultKey bool `json:"foreign_default_key,omitempty"`
 }
 
 const (
@@ -263,6 +265,9 @@ func (w *vfWorld) keyA() string {
 }
 
 func (w *vfWorld) keyB() string {
+	if w.cfg.ForeignDefaultKey {
+		return "0123456789abcdef0123456789abcdef0123456789abcdef0123456789abcdef"
+	}
 	if w.cfg.LongKeys {
 		return vfKeyLongB
 	}
